@@ -299,7 +299,7 @@ func agree(x *mon.Ctx) {
 	}
 
 	// ---- random sessions
-	for i := 0; i < x.Scale(1200, 60000); i++ {
+	for i := 0; i < x.Scale(1200, 40000); i++ {
 		k := next()
 		c := x.Begin("random #%d flags#%d", i, k)
 		if c == nil {
